@@ -184,6 +184,16 @@ def filter_closed(prog, chk):
         for o in sides:
             if o[0] == "const" and "str" in o[1]:
                 lits.add(o[1]["str"])
+    # a test by pattern (prefix / suffix / substring) withholds an open-ended family of names, standard ones included
+    pats = []
+    for ob_ in [oe] + [x for x in prog.bodies.values() if x.root == oe.id]:
+        for (bb, t, c) in ob_.call_sites(lambda c: c.path.startswith(("core::str::<impl str>::", "std::str::<impl str>::")) and c.path.split("::")[-1] in ("starts_with", "ends_with", "contains", "strip_prefix", "strip_suffix", "find", "matches")):
+            if len(t["args"]) >= 2:
+                o = R.origin(ob_, t["args"][1], carriers={"as_str": 0, "deref": 0, "as_ref": 0, "borrow": 0})
+                if o[0] == "const" and "str" in o[1]:
+                    pats.append((c.path.split("::")[-1], o[1]["str"], ob_.where(bb, t.get("line"))))
+    for (m_, p_, w_) in pats:
+        chk.bad("A14.passthrough-filter", f"OtherElement:{m_}:{p_}", w_, f"OtherElement::generate_events tests a name with {m_}({p_!r}): attributes are withheld (or treated specially) by pattern - every attribute so named, standard SVG ones included (text-anchor, text-decoration ...), is affected, not the closed list class / data-src-line / _ / __")
     if not lits:
         chk.undecided("A14.passthrough-filter", "OtherElement", oe.where(), "no comparison of an attribute name with a literal found in OtherElement::generate_events (the filter may be a set lookup or live elsewhere)")
         return
